@@ -13,7 +13,8 @@ LEVEL = 'exploration'
 TECHNIQUE = 'bounded-exhaustive enumeration of aliasing/cyclic object graphs x watch sets x budgets on the real collector; closure + identity-bijection oracle by parallel walk of table and object graph'
 RULE = ('graphs = C05 family (<=n containers, all aliasing, self/mutual cycles); watch sets = {none, value already in the frame, alias of a '
         'child, fresh temporary, two temporaries in a row, locals(), failing expression}; budgets = {1000, 4, 2}; k in {1,2} tracepoints; '
-        'non-trivial = the graph has sharing or a cycle, or a watch aliases collected data, or the budget was hit')
+        'non-trivial = the graph has sharing or a cycle, or a watch aliases collected data, or the budget was hit'
+        ' ; watch values of 9..1001 entries the frame collection did not reach x {dict, lists, object} x 3 watch lists; deferred snapshots whose recorded objects are released before completion (3 program shapes x method/line capture) and values computed on demand (cells / floats x watch / all_frame)')
 ASSUMPTIONS = ['set children are compared as multisets', 'the extra table entry for the frame\'s locals mapping itself is allowed']
 
 WATCHSETS = ['none', 'same', 'alias', 'temp', 'two_temps', 'locals', 'failing']
